@@ -2,7 +2,7 @@ SPECIFICATION MCSpec
 CONSTANTS AggReplace = FALSE
  AggKeepFirst = FALSE
  MCKinds = {"con"}
- MaxStores = 3
+ MaxStores = 2
  MaxQ = 2
  MaxExp = 1
  MaxSet = 2
